@@ -359,6 +359,36 @@ def check_reply(case, part, rng):
             part.count('replies_equal_reference')
 
 
+def check_overlong(case, part, rng):
+    '''A multi-line reply one of whose inner lines is longer than the line limit of the control stream (64 KiB) and ends
+    in text that would read as the reply's closing line.  Whether such a reply is refused or accepted is a documented
+    limit, not part of the statement; that the outcome is the same however the bytes are cut is.'''
+    code = case['code']
+    pad = case['pad']
+    long_line = b'x' * pad + ('%03d early end' % code).encode()
+    wire = ('%03d-Welcome\r\n' % code).encode() + long_line + b'\r\n still inside\r\n' + ('%03d Real end\r\n' % code).encode()
+    start = len('%03d-Welcome\r\n' % code)
+    lf = start + len(long_line) + 1
+    cuts = sorted(set(c for c in (start + pad, start + pad - 1, start + 65536, start + 65537, start + 65535, lf, lf - 1, lf + 1,
+                                 start, start + 1, start + pad // 2) if 0 < c < len(wire)))
+    segs = [[wire]] + [[wire[:c], wire[c:]] for c in cuts]
+    for size in (4096, 16384, 65536, rng.randrange(1000, 70000)):
+        segs.append([wire[i:i + size] for i in range(0, len(wire), size)])
+    outs = read_replies(wire, segs) + read_replies(wire, segs, eof_with_last=True)
+    segs = segs + segs
+    part.evaluations += len(outs)
+    part.count('overlong_reply_reads', len(outs))
+    part.nontrivial_case('reply/overlong/{}/{}'.format(code, 'over' if pad + 13 > 65536 else 'under'))
+    replay = dict(case, kind_of_case='overlong')
+    for i, o in enumerate(outs[1:], 1):
+        if o != outs[0]:
+            part.violation('reply-depends-on-segmentation/overlong-line',
+                           {'whole': outs[0], 'segmented': o, 'piece_lengths': [len(p) for p in segs[i]][:8]}, replay)
+            break
+    else:
+        part.count('overlong_replies_segmentation_independent')
+
+
 # ------------------------------------------------------------------------------------------ C: completion
 def check_completion(case, part):
     from wpull.errors import NetworkError, ProtocolError, ServerError
@@ -429,6 +459,8 @@ def worker(job):
             check_injection(rp, part)
         elif rp.get('kind_of_case') == 'reply':
             check_reply(rp, part, rng)
+        elif rp.get('kind_of_case') == 'overlong':
+            check_overlong(rp, part, rng)
         else:
             check_completion(rp, part)
         return part.dump()
@@ -439,6 +471,9 @@ def worker(job):
             part.sample(case)
     for n in range(job['n_reply']):
         check_reply(gen_reply(rng), part, rng)
+    for n in range(max(1, job['n_reply'] // 40)):
+        check_overlong({'code': rng.choice([220, 230, 200, 226]),
+                        'pad': rng.choice([65536 - 20, 65536 - 13, 65536, 66000, 70000, 131072 + 5, rng.randrange(60000, 140000)])}, part, rng)
     for n in range(job['n_completion']):
         # (the reply after the data connection closed: only 226 confirms the transfer; other replies - also positive ones
         # such as 225 'no transfer in progress', 221 'goodbye', 200, 211 - do not)
